@@ -30,13 +30,13 @@ for _pid in PENDING:
 # then audited with `#print axioms` under its own name, not only through the theorems that use it.
 EXTRA_MODULES = {
     "C05": ["Proofs.C05Render", "Proofs.E2ERun", "Proofs.C19E2E"],
-    "C07": ["Proofs.C07", "Proofs.C07Lines", "Proofs.C07Source", "Proofs.C05"],
+    "C07": ["Proofs.C07", "Proofs.C07Lines", "Proofs.C07Source", "Proofs.C05", "Proofs.C07First", "Proofs.RenderTrace", "Proofs.TraceLemmas"],
     "C08": ["Proofs.C08", "Proofs.C08Source", "Proofs.ExprLexemes"],
     "C10": ["Proofs.C10", "Proofs.C10Source", "Proofs.SrcRelRender", "Proofs.SrcRelInclude", "Proofs.SrcShiftSource", "Proofs.C19E2E"],
     "C11": ["Proofs.C11", "Proofs.C11Source", "Proofs.SrcLoop"],
     "C13": ["Proofs.RunLemmas", "Proofs.HyphenFace", "Proofs.C13Source", "Proofs.HyphenSource", "Proofs.HyphenSourceCompile", "Proofs.C19E2E"],
     "C12": ["Proofs.C12", "Proofs.C12Source"],
-    "C14": ["Proofs.C14", "Proofs.C14Source"],
+    "C14": ["Proofs.C14", "Proofs.C14Source", "Proofs.C14Errors"],
     "C18": ["Proofs.C18"],
     "C19": ["Proofs.C19", "Proofs.E2ESpell", "Proofs.E2ELex", "Proofs.E2EToken", "Proofs.E2EUnits", "Proofs.E2EScan", "Proofs.E2ECompile",
             "Proofs.E2EEquiv"],
@@ -44,7 +44,8 @@ EXTRA_MODULES = {
     "C17": ["Proofs.DateFilter"],
     "C02": ["Proofs.C02", "Proofs.JsonFilter"],
     "C03": ["Proofs.C03"],
-    "C20": ["Proofs.C20", "Proofs.C20Source", "Proofs.ProgLemmas", "Proofs.RenderStops"],
+    "C20": ["Proofs.C20", "Proofs.C20Source", "Proofs.ProgLemmas", "Proofs.RenderStops", "Proofs.C20Located", "Proofs.RenderTrace", "Proofs.TraceLemmas",
+            "Proofs.TraceSites"],
 }
 for _pid, _mods in EXTRA_MODULES.items():
     if _pid in PROPS:
